@@ -1075,7 +1075,18 @@ class FnItem:
         try:
             stoks, smatch = _toks(sig)
             fi = next(k for k, t in enumerate(stoks) if t.text == "fn")
-            po = next(k for k in range(fi, len(stoks)) if stoks[k].text == "(")
+            po = fi + 2
+            if po < len(stoks) and stoks[po].text == "<":
+                # skip the generic parameter list (it may contain parentheses: `Item = (&str, &str)`)
+                ad = 0
+                while po < len(stoks):
+                    tx = stoks[po].text
+                    if tx != "->" and tx != "=>":
+                        ad += tx.count("<") - tx.count(">") if tx in ("<", ">", "<<", ">>") else 0
+                    po += 1
+                    if ad == 0:
+                        break
+            po = next(k for k in range(po, len(stoks)) if stoks[k].text == "(")
             pnames, depth = [], 0
             for k in range(po + 1, smatch[po]):
                 tx = stoks[k].text
@@ -1085,6 +1096,9 @@ class FnItem:
                     depth -= 1
                 elif tx == ":" and depth == 0 and stoks[k - 1].kind == "ident":
                     pnames.append(stoks[k - 1].text)
+            # `$argN` in a proof hint: the name of the N-th parameter (self not counted) as the signature spells it today, so that a
+            # renamed parameter does not turn a start-of-body ghost capture into an unresolved name
+            self._arg_names = [pn for pn in pnames if pn != "self"]
             hint_txt = " ".join([pr[2] for pr in sp.get("proofs", []) if pr[0] != "start"] + list((sp.get("loops") or {}).values()))
             for pn in pnames:
                 if pn == "self":
@@ -1201,6 +1215,12 @@ class FnItem:
         nbody = _norm_with_offsets(body)
         for pr in sp.get("proofs", []):
             where, anchor, txt = pr[0], pr[1], pr[2]
+            if "$arg" in txt:
+                _an = getattr(self, "_arg_names", [])
+                try:
+                    txt = re.sub(r"\$arg(\d+)", lambda m: _an[int(m.group(1))], txt)
+                except IndexError:
+                    raise Undecided("%s: a proof hint names parameter %s but the signature has %d" % (self.name, txt[txt.index("$arg"):][:6], len(_an)))
             occ = pr[3] if len(pr) > 3 else None
             optional = pr[4] if len(pr) > 4 else False
             if where == "start":
